@@ -144,7 +144,10 @@ def gen_cases(ctx, nsingle, nnested, R=10, float_stream=True):
             num = "int"
         if float_stream and i % 4 == 3 and op in "|&-":
             num = "float"
-        yield {"env": env, "expr": (op, ("var", 0), ("var", 1)), "num": num}
+        case = {"env": env, "expr": (op, ("var", 0), ("var", 1)), "num": num}
+        if num == "frac" and i % 4 == 2:
+            case["hist"] = i // 4
+        yield case
         if i % 7 == 0:
             yield {"env": env[:1], "expr": (rng.choice(["~", "neg"]), ("var", 0)), "num": num if num != "float" else "frac"}
     for i in range(max(3, nsingle // 10)):
@@ -183,6 +186,9 @@ def run_impl(case, timeout=120):
     """fresh objects; ('ok', ShapeObject) | ('err', kind) | ('hang',)   plus the env objects"""
     num = case["num"]
     objs = [I.mk_shape(s, num) for s in case["env"]]
+    if case.get("hist") is not None and num == "frac":
+        # operands with a history (built elsewhere, questioned, brought into place in place)
+        objs = [I.mk_shape_hist(s, case["hist"] + i) for i, s in enumerate(case["env"])]
     try:
         with U.time_limit(timeout):
             out = I.outcome(lambda: I.apply_expr(objs, case["expr"]))
